@@ -1,5 +1,6 @@
 import HC.Proto.H2Send
 import HC.Proto.Heads
+import HC.Extracted.ReqGlue
 /-!
 # H2Wire — the HTTP/2 send path with its contents: what the client is sent, frame by frame
 
@@ -36,8 +37,10 @@ inductive Frame where
   | rst                             -- RST_STREAM
 deriving Repr, DecidableEq
 
-/-- `H2Protocol._end_stream`: trailers pending → they end the stream; otherwise the empty DATA frame does -/
-def endFrame (trailers : Headers) : Frame := if trailers.isEmpty then .endStream else .trailersEnd trailers
+/-- `H2Protocol._end_stream`: trailers pending (the test is read off the source: `ReqGlue.endStreamTest`) → they end the
+    stream; otherwise the empty DATA frame does -/
+def endFrame (trailers : Headers) : Frame :=
+  if HC.Extracted.ReqGlue.endStreamTest trailers.length then .trailersEnd trailers else .endStream
 
 /-- the stream events of `hypercorn.protocol.events` that `H2Protocol.stream_send` handles for a response -/
 inductive AOp where
@@ -74,18 +77,18 @@ def opSid : Op → Option Nat
   | _ => none
 
 /-- what a step of the send path from `g.s` to `s'` writes for stream `j`, read off the counters -/
-def emitted (g : G) (s' : St) (j : Nat) : List (Nat × Frame) :=
+def emitF (g : G) (s' : St) (j : Nat) : List Frame :=
   let x := g.s.str j
   let x' := s'.str j
-  (if x.sent < x'.sent then [(j, Frame.data ((g.bufB j).take (x'.sent - x.sent)))] else []) ++
-  (if x'.ended && !x.ended then [(j, endFrame (g.trl j))] else []) ++
-  (if x'.pusher == .inAbandon && x.pusher != .inAbandon then [(j, Frame.rst)] else [])
+  (if x.sent < x'.sent then [Frame.data ((g.bufB j).take (x'.sent - x.sent))] else []) ++
+  (if x'.ended && !x.ended then [endFrame (g.trl j)] else []) ++
+  (if x'.pusher == .inAbandon && x.pusher != .inAbandon then [Frame.rst] else [])
 
 /-- the ghost components after a step of the send path from `g.s` to `s'` (op `o`): bytes leave a buffer from the front
     (`pop`) or all at once (`close()`); a stream that is opened gets a fresh buffer -/
 def afterLow (g : G) (o : Op) (s' : St) : G :=
   { s := s',
-    out := g.out ++ (match opSid o with | some j => emitted g s' j | none => []),
+    out := g.out ++ (match opSid o with | some j => (emitF g s' j).map (fun f => (j, f)) | none => []),
     bufB := fun j => (g.bufB j).drop ((g.s.str j).buf - (s'.str j).buf),
     trl := fun j => if (s'.str j).opened && !(g.s.str j).opened then [] else g.trl j,
     hist := match o with
@@ -100,7 +103,8 @@ def gstep (srv : Headers) (g : G) : GOp → Option G
     let x := g.s.str i
     if !x.opened then none else
     -- `send_headers` + `_flush`; h2 refuses (ProtocolError, swallowed) when the stream is reset or already ended by us
-    some { g with out := if !x.libClosed && !x.ended && !g.s.closed then g.out ++ [(i, .headers (h2Headers status hs srv))] else g.out,
+    -- ("written" = handed to the transport: after `handle(Closed)` h2 still accepts the call)
+    some { g with out := if !x.libClosed && !x.ended then g.out ++ [(i, .headers (h2Headers status hs srv))] else g.out,
                   hist := updF g.hist i (.head status hs :: g.hist i) }
   | .body i d =>
     let x := g.s.str i
